@@ -39,7 +39,7 @@ NewLink == [ech |-> -1, pch |-> -1, eh |-> -1, ph |-> -1, name |-> "", eutSender
             idc |-> 0, dcS |-> 0, limit |-> -1, drainOwed |-> FALSE, echoOwed |-> FALSE, inDel |-> FALSE, curDid |-> -1,
             sendsIssued |-> 0, delsDone |-> 0, blockedBy |-> "none", lastM |-> -1, cancels |-> 0,
             \* receiver role (EUT receives)
-            dcR |-> 0, dcGot |-> 0, lcR |-> 0, limitR |-> 0, limitMax |-> 0, idcP |-> 0, accepted |-> 0, broken |-> FALSE, aborts |-> 0, cfgActive |-> FALSE, creditMode |-> -2, autoAcc |-> FALSE, expectLc |-> -1, appLc |-> -1, dispN |-> 1, held |-> 0, pInDel |-> FALSE,
+            dcR |-> 0, dcGot |-> 0, lcR |-> 0, limitR |-> 0, limitMax |-> 0, idcP |-> 0, accepted |-> 0, broken |-> FALSE, aborts |-> 0, cfgActive |-> FALSE, creditMode |-> -2, autoAcc |-> FALSE, expectLc |-> -1, appLc |-> -1, sflowGap |-> FALSE, dispN |-> 1, held |-> 0, pInDel |-> FALSE,
             inq |-> <<>>,          \* incoming deliveries not yet handed to the application
             got |-> <<>>,          \* deliveries handed to the application: [did, m, app (state chosen by the application or "none"), presettled]
             \* settlement
@@ -213,7 +213,7 @@ H_EFlow(s, r, l) ==
        \* at least those already handed to the application, at most those that have arrived (a link endpoint
        \* processes arrivals when the application drives it)
        R(SetL(s, k, [y EXCEPT !.lcR = f.lc, !.limitR = f.dc + Max(f.lc, 0), !.limitMax = Max(@, f.dc + Max(f.lc, 0)), !.expectLc = -1]),
-         fs + Chk("C09_FlowCount", f.dc >= y.dcGot /\ f.dc <= y.dcR, l, "")
+         fs + Chk("C09_FlowCount", f.dc >= y.dcGot /\ f.dc <= y.dcR, l, IF y.sflowGap THEN "after_sender_flow" ELSE "")
             + Chk("C09_FlowCredit", y.expectLc < 0 \/ f.lc = y.expectLc, l, "")
             + Chk("C09_FlowCreditAuto", ~y.cfgActive \/ y.creditMode < 0 \/ y.expectLc >= 0 \/ f.drain \/ f.lc <= Max(y.creditMode, y.appLc), l, ""))   \* (credit the application raised itself may be re-announced)
 
@@ -340,7 +340,10 @@ H_PFlow(s, r, l) ==
   LET y == s.ls[k] IN
   IF y.eutSender
   THEN R(SetL(s2, k, [y EXCEPT !.limit = (IF f.dc >= 0 THEN f.dc ELSE y.idc) + Max(f.lc, 0), !.drainOwed = f.drain, !.echoOwed = (@ \/ f.echo)]), 0)
-  ELSE R(SetL(s2, k, [y EXCEPT !.dcR = IF f.dc >= 0 THEN f.dc ELSE @, !.dcGot = IF f.dc >= 0 THEN f.dc ELSE @]), 0)
+  \* the sender states its delivery-count: everything it has sent has arrived (dcR); deliveries that have arrived but have not been
+  \* handed to the application yet stay that many behind (dcGot).  sflowGap remembers that such a flow overtook queued deliveries.
+  ELSE R(SetL(s2, k, [y EXCEPT !.dcR = IF f.dc >= 0 THEN f.dc ELSE @, !.dcGot = IF f.dc >= 0 THEN f.dc - (y.dcR - y.dcGot) ELSE @,
+                                !.sflowGap = (@ \/ (f.dc >= 0 /\ y.dcR > y.dcGot))]), 0)
 
 \* one incoming delivery as the observer sees it
 NewIn(f, pl, within) == [m |-> pl.m, total |-> pl.total, next |-> IF pl.off = 0 THEN pl.len ELSE -1, did |-> f.did, tag |-> f.tag, tagn |-> f.tagn, fmt |-> f.fmt,
